@@ -546,6 +546,12 @@ func (g *GoFakeS3) writeGetOrHeadObjectResponse(obj *Object, w http.ResponseWrit
 
 	lastModified, _ := time.Parse(http.TimeFormat, obj.Metadata["Last-Modified"])
 	ifModifiedSince, _ := time.Parse(http.TimeFormat, r.Header.Get("If-Modified-Since"))
+	if r.Header.Get("If-None-Match") != "" {
+		// The entity tag did not match, which settles it: If-Modified-Since is
+		// ignored next to If-None-Match (RFC 7232 section 3.3, and S3). The
+		// one-second timestamps cannot tell an object from its replacement.
+		ifModifiedSince = time.Time{}
+	}
 	if !lastModified.IsZero() && !ifModifiedSince.Before(lastModified) {
 		return ErrNotModified
 	}
